@@ -10,7 +10,7 @@ use std::str::Chars;
 pub fn wildcard_match(wild: &str, tame: &str) -> bool {
     let mut wild_iter: Peekable<Chars> = wild.chars().peekable();
     let mut tame_iter: Peekable<Chars> = tame.chars().peekable();
-    let mut after_last_wild: Option<Peekable<Chars>> = None;
+    let mut after_last_wild: Option<(Peekable<Chars>, Peekable<Chars>)> = None;
 
     loop {
         let tame_char = tame_iter.peek().copied();
@@ -42,29 +42,21 @@ pub fn wildcard_match(wild: &str, tame: &str) -> bool {
                 //   was previously or is currently a wildcard character
                 // For example, "abcd" matches "abc*" and "a*"
                 if wild_char == Some('*') {
-                    // If the wild character is a wildcard character, store the position after it
+                    // If the wild character is a wildcard character, store the position after it along with the
+                    //   position in the tame string at which the wildcard started matching
                     // This is needed in cases such as "abcd" matching "a*d"
                     wild_iter.next();
-                    after_last_wild = Some(wild_iter.clone());
+                    after_last_wild = Some((wild_iter.clone(), tame_iter.clone()));
                     continue;
-                } else if let Some(after_last_wild_iter) = &after_last_wild {
-                    // If there is not a new wildcard character, but there has previously been one, move the iterator to
-                    //   immediately after the last wildcard character, and store the next character.
+                } else if let Some((after_last_wild_iter, wild_start_tame_iter)) = &mut after_last_wild {
+                    // If there is not a new wildcard character, but there has previously been one, the last wildcard
+                    //   must match one more character of the tame string than previously tried. Both iterators are
+                    //   moved back, so that a partial match of the segment after the wildcard is retried from the
+                    //   next position in the tame string.
+                    // For example, "aaab" matches "*aab"
+                    wild_start_tame_iter.next();
                     wild_iter = after_last_wild_iter.clone();
-                    let wild_char = wild_iter.peek().copied();
-
-                    if wild_char.is_none() {
-                        // If there are no more wild characters, this means that the last character of the wild string was a
-                        //   wildcard character and the strings matched up to that point. Therefore, the strings match.
-                        // For example, "abcd" matches "a*"
-                        return true;
-                    } else if tame_char == wild_char {
-                        // If the characters do match, the end of the wildcard segment must have been reached, so increment the
-                        //   iterator.
-                        wild_iter.next();
-                    }
-
-                    tame_iter.next();
+                    tame_iter = wild_start_tame_iter.clone();
                     continue;
                 } else {
                     // If the characters do not match, are not wildcard, do not follow a wildcard, and do not complete a wildcard
